@@ -27,6 +27,7 @@ struct Dump {
     std::vector<UserM> user;
     std::vector<AnnoM> anno0;
     int32_t anno0_rc = 0;
+    std::string absurd;   // the reader reported something no file of this size can hold (e.g. a length of 2^40 samples): never equal to anything
 };
 
 // fixed battery of statistics requests derived from the stored definition and the length
@@ -69,6 +70,9 @@ inline Dump dump_file(const char * path, int chunk_seed = 0) {
         for (int k = 0; k < N_DTYPES; ++k) if (DTYPES[k].code == (sd.data_type & 0xffff)) dt = &DTYPES[k];
         if (sd.signal_type == JLS_SIGNAL_TYPE_FSR && dt) {
             s.len_rc = jls_rd_fsr_length(rd.rd, (uint16_t) id, &s.len);
+            // the VFS caps a file at 256 MiB = 2^31 one-bit samples: a longer signal is a lie of the reader, and nothing can be
+            // allocated for it (seeded/C19d made the reader report a length of ~10^13 through an overwritten definition chunk)
+            if (!s.len_rc && s.len > (1LL << 32)) { if (d.absurd.empty()) d.absurd = strf("signal %d: jls_rd_fsr_length reports %lld samples", id, (long long) s.len); s.read_rc = -998; s.len = -998; }
             if (!s.len_rc && s.len > 0) {
                 // read in a partition that depends on chunk_seed
                 BitVec bv(dt->bits);
@@ -120,6 +124,8 @@ inline bool dbl_same(double a, double b, double rel = 1e-9) {
 // lengths <=, samples equal on a's length, lists are prefixes, statistics are not compared.
 inline std::string dump_compare(const Dump & a, const Dump & b, bool prefix, const char * an = "first", const char * bn = "second") {
     if (a.open_rc || b.open_rc) return strf("open rc %d / %d", a.open_rc, b.open_rc);
+    if (!a.absurd.empty()) return strf("%s: %s, more than any file the backend can hold", an, a.absurd.c_str());
+    if (!b.absurd.empty()) return strf("%s: %s, more than any file the backend can hold", bn, b.absurd.c_str());
     if (!prefix && a.sources != b.sources) return strf("source definitions differ (%zu in %s, %zu in %s)", a.sources.size(), an, b.sources.size(), bn);
     if (prefix) for (auto & s : a.sources) { bool found = false; for (auto & t : b.sources) if (s == t) found = true; if (!found) return strf("source %d of %s is missing or different in %s", s.first, an, bn); }
     for (auto & kv : a.sigs) {
